@@ -14,7 +14,7 @@ fn main() {
     }
     let thorough = args.tier == Tier::Thorough;
     let mut c = Check::new("C09", args.tier, "fault_enumeration");
-    c.rule = "for every driver x transport (model, MMIO legacy, MMIO modern, PCI) x feature variant: the fault-free construction counts K DMA allocations, then each k in 0..K is made to fail; the configuration space is truncated to every length below the full size (and the 9P tag emptied); fault-free usage histories of 0..3 steps (GPU: 0..6, every allocating operation twice; buffered net: 0..4, a burst received, recycled oldest first, every buffer used once more) are followed by drop. Oracles: error not panic, every DMA region returned exactly once with original arguments, none returned (and no posted driver-owned heap buffer freed) while the device is live on that queue, and no GPU backing region returned while the live device has it attached. distinct = distinct (driver, transport, outcome class)".into();
+    c.rule = "for every driver x transport (model, MMIO legacy, MMIO modern, PCI) x feature variant: the fault-free construction counts K DMA allocations, then each k in 0..K is made to fail (also on a device that its previous owner left running and whose reset shows late in the status register); the configuration space is truncated to every length below the full size (and the 9P tag emptied); fault-free usage histories of 0..3 steps (GPU: 0..6, every allocating operation twice, and additionally each single command of that history answered with an error: what an earlier successful operation attached must still not be freed while attached; buffered net: 0..4, a burst received, recycled oldest first, every buffer used once more) are followed by drop. Oracles: error not panic, every DMA region returned exactly once with original arguments, none returned (and no posted driver-owned heap buffer freed) while the device is live on that queue, and no GPU backing region returned while the live device has it attached. distinct = distinct (driver, transport, outcome class)".into();
     c.assumptions = vec!["buffers of requests that are still outstanding when a driver is dropped stay shared (not covered by this property)".into(), "GPU operations that allocate after construction are exercised by the C20 harness with the same ledger oracles".into()];
     let mut ev = 0u64;
     let mut classes: BTreeMap<String, u64> = BTreeMap::new();
@@ -23,8 +23,10 @@ fn main() {
         for tkind in ALL_TKINDS {
             let part = format!("construct+drop:{}:{}", kind.name(), tkind.name());
             let mut seen = std::collections::HashSet::new();
+            let gpu_cmds = std::cell::Cell::new(0usize);
             let mut run = |case: &Case, what: String, c: &mut Check, ev: &mut u64, classes: &mut BTreeMap<String, u64>| -> usize {
                 let o = c09::run_case(case);
+                gpu_cmds.set(o.gpu_cmds);
                 *ev += 1;
                 *classes.entry(format!("{}:{}", part, o.class)).or_insert(0) += 1;
                 for (k, d) in o.viols {
@@ -49,6 +51,7 @@ fn main() {
                     cs.usage = usage;
                     k_allocs = run(&cs, format!("fault-free, {} usage steps then drop", usage), &mut c, &mut ev, &mut classes);
                 }
+                let n_cmds = gpu_cmds.get();
                 // Every k-th allocation failing.
                 for k in 0..k_allocs {
                     let mut cs = base.clone();
@@ -56,6 +59,25 @@ fn main() {
                     cs.usage = max_usage;
                     cs.fail_at = Some(k);
                     run(&cs, format!("DMA allocation #{} of {} fails", k, k_allocs), &mut c, &mut ev, &mut classes);
+                    // The same on a device that a previous owner left running and whose reset
+                    // takes a moment to show in the status register.
+                    cs.left_running = true;
+                    run(&cs, format!("DMA allocation #{} of {} fails on a device left running by its previous owner (slow reset)", k, k_allocs), &mut c, &mut ev, &mut classes);
+                }
+                {
+                    let mut cs = base.clone();
+                    cs.usage = max_usage;
+                    cs.left_running = true;
+                    run(&cs, "fault-free on a device left running by its previous owner (slow reset)".to_string(), &mut c, &mut ev, &mut classes);
+                }
+                // GPU: each command of the full usage history answered with an error.
+                if kind == Kind::Gpu {
+                    for k in 0..n_cmds {
+                        let mut cs = base.clone();
+                        cs.usage = max_usage;
+                        cs.gpu_err_at = Some(k);
+                        run(&cs, format!("GPU command #{} of {} answered with an error", k, n_cmds), &mut c, &mut ev, &mut classes);
+                    }
                 }
             }
             // Configuration space too small / missing.
